@@ -733,7 +733,11 @@ def call_native(I, f, args, kwargs):
     if h is not None:
         return h(I, *args, **kwargs)
     if isinstance(f, type) and issubclass(f, BaseException):
-        return ExcVal(f, args)
+        ev = ExcVal(f, args)
+        for (k, n), v in I.p.ghost.get('class_attrs', {}).items():
+            if issubclass(f, k):
+                ev.fields[n] = v
+        return ev
     if f in PURE_NATIVE and not _has_sym(tuple(args)) and not _has_sym(tuple(kwargs.values())):
         return f(*args, **kwargs)
     if isinstance(f, types.FunctionType):
